@@ -1598,3 +1598,129 @@ func ruleADP5(c *Ctx) []Ob {
 	}
 	return o.list
 }
+
+// ---------------------------------------------------------------- RNG2
+
+// RNG2: in a range scan with a direction flag, the conditions under which the
+// emission loop is left depend on the far bound only: specialised on
+// reverse = true they read Range.Start/StartIncluded and never End/EndIncluded,
+// specialised on reverse = false the other way round.
+func ruleRNG2(c *Ctx) []Ob {
+	o := newObs(c, "RNG2")
+	n := 0
+	for _, fn := range c.LibFuncs {
+		if c.pkgRel(fn) != "index" || fn.Parent() != nil {
+			continue
+		}
+		var rev *ssa.Parameter
+		allCalls(fn, func(call ssa.CallInstruction) {
+			if c.isInvokeOf(call, "store", "Tx", "Cursor") {
+				if u, ok := call.Common().Args[0].(*ssa.UnOp); ok && u.Op == token.NOT {
+					if p, ok := u.X.(*ssa.Parameter); ok {
+						rev = p
+					}
+				}
+			}
+		})
+		hasRange := false
+		for _, p := range fn.Params {
+			if pt, ok := p.Type().(*types.Pointer); ok && c.libNamedIs(pt.Elem(), "index", "Range") {
+				hasRange = true
+			}
+		}
+		if rev == nil || !hasRange {
+			continue
+		}
+		// the emission loop: the innermost loop around the per-element callback
+		var body map[*ssa.BasicBlock]bool
+		for _, b := range fn.Blocks {
+			for _, in := range b.Instrs {
+				if call, ok := in.(*ssa.Call); ok && c.isElementCallback(call) && c.inLoop(b) {
+					_, body = c.innermostLoop(b)
+				}
+			}
+		}
+		if body == nil {
+			continue
+		}
+		for _, dir := range []bool{true, false} {
+			live := liveBlocksUnder(fn, map[*ssa.Parameter]bool{rev: dir})
+			phiLive := specialise(fn, rev, dir)
+			used := map[string]string{}
+			seen := map[ssa.Value]bool{}
+			var walk func(v ssa.Value)
+			walk = func(v ssa.Value) {
+				if v == nil || seen[v] {
+					return
+				}
+				seen[v] = true
+				if _, f, nm := fieldLoad(v); f != "" && nm != nil && c.libNamedIs(nm, "index", "Range") {
+					used[f] = relPath(c, v.Pos())
+					return
+				}
+				switch x := v.(type) {
+				case *ssa.Phi:
+					for i, e := range x.Edges {
+						if !phiLive(x, i) {
+							continue
+						}
+						walk(e)
+						p := x.Block().Preds[i]
+						if live[p] && len(p.Instrs) > 0 {
+							if iff, ok := p.Instrs[len(p.Instrs)-1].(*ssa.If); ok {
+								walk(iff.Cond)
+							}
+						}
+					}
+				case *ssa.BinOp:
+					walk(x.X)
+					walk(x.Y)
+				case *ssa.UnOp:
+					walk(x.X)
+				}
+			}
+			for b := range body {
+				if !live[b] || len(b.Instrs) == 0 {
+					continue
+				}
+				iff, ok := b.Instrs[len(b.Instrs)-1].(*ssa.If)
+				if !ok {
+					continue
+				}
+				exits := false
+				for _, s := range b.Succs {
+					if !body[s] {
+						exits = true
+					}
+				}
+				// conditions feeding an exit through a chain of short-circuit blocks count too:
+				// take every conditional of the live loop body that is not the loop header test
+				_ = exits
+				walk(iff.Cond)
+			}
+			n++
+			dname := "forward"
+			wrong := []string{"Start", "StartIncluded"}
+			if dir {
+				dname = "reverse"
+				wrong = []string{"End", "EndIncluded"}
+			}
+			key := c.fname(fn) + "/" + dname + " scan stops on the far bound"
+			bad := ""
+			for _, w := range wrong {
+				if at, ok := used[w]; ok {
+					bad = w + " (read at " + at + ")"
+				}
+			}
+			if bad != "" {
+				o.add(VIOLATED, key, relPath(c, fn.Pos()), "in the %s direction the emission loop's conditions depend on Range.%s, the bound the scan started from: entries on the far bound are dropped or kept by the wrong inclusivity flag", dname, bad)
+			} else {
+				o.add(OK, key, relPath(c, fn.Pos()), "conditions inside the emission loop read only the far bound's fields")
+			}
+		}
+	}
+	if n == 0 {
+		o.add(UNDECIDED, "range-scan", "-", "no range scan function with a direction flag found")
+	}
+	return o.list
+}
